@@ -31,6 +31,9 @@ CHECKS["C17"] = ("exploration", "runtime monitoring: before/after snapshot monit
 CHECKS["C02"] = ("exploration", "runtime monitoring + sanitizer: guard-page (red-zone) linear-memory allocator around real JIT/interpreter execution, sparse reference-memory monitor per access, supervised children",
   "Access-pattern templates (114 memory instructions; base as parameter/constant/constant-in-local/computed; calls, memory.grow and control-flow joins between accesses; the same base reused afterwards) on memories of 0..65536 pages, fixed and moving allocators, both engines. Every linear memory is [8GiB PROT_NONE | max | 8GiB PROT_NONE], so an out-of-bounds touch by generated code kills the child and is mapped back to the access; a Go reference memory decides trap/no-trap, trap kind and location, loaded values, memory contents and that trapping writes change nothing. Held on the templates and value tuples explored only.",
   "red zone reaches +-8GiB only; page-granular for in-bounds stray writes (value oracle covers bytes); arm64 not executed", "§3 C02, §2.4")
+CHECKS["C03"] = ("exploration", "runtime monitoring: structured mutation fuzzing of CompileModule in supervised children (rlimit, CPU sentinel) with panic/allocation/hang monitors, execution of every accepted module on both engines, validity monitor for by-construction-valid programs",
+  "Section-aware mutations (LEB forms, counts/sizes, section order, opcodes, indexes, modes, limits, custom/name garbage, body sizes, local counts) of ~4 100 corpus modules and generated programs plus raw bytes, compiled under five feature sets on the interpreter and (sampled) the compiler: a panic or child death, an allocation above a calibrated A*len+B bound, or a hang proven by a differential watchdog is a violation; every accepted module is instantiated with stubbed imports and its exports called on both engines (internal errors, BUG panics, faults are violations); every generated valid program must be accepted. Held on the inputs explored only.",
+  "allocation bound calibrated on unmutated accepted inputs with 4x headroom; deadline expiry and rlimit exhaustion during execution are inconclusive; 'never hangs' only as 'no explored input exceeded the budget'", "§3 C03")
 CHECKS["C04"] = ("exploration", "runtime monitoring: executable link model + shared-store model checked against every observation of generated module graphs on both engines; exhaustive import-matching matrix; race detector sample",
   "The import-matching matrix over a small domain (limits, kinds, value types x mutability, function types, grown exporters, re-export chains) is enumerated exhaustively: only 'accepted although incompatible' is a violation. PRNG graphs of 2-4 modules with interleaved calls: every read on any instance (guest and host API) must equal a shared-store model; values captured at instantiation must equal the current value; failed instantiations must leave earlier instances as the spec says. Held on the pairs and graphs explored only.",
   "spec matching rule as in DESIGN Appendix B; compatible-but-rejected imports are information only", "§3 C04, App. B")
